@@ -207,6 +207,15 @@ def corner_programs():
         out.append("struct Alt<T, U>(v: T, flip: Optional<Alt<U, T>>)\nlet n = Alt(1, some(Alt(%s, none())));\nlet r = n::flip.value()::v%s;\n" % (a, USE[a]))
         out.append("union Res<T, E>(ok: T, err: E)\nlet q: Res<int, str> = Res::ok(%s);\nlet r = q?:ok.value() + 1;\n" % a)
         out.append("union Res<T, E>(ok: T, err: E)\nlet q: Res<int, str> = Res::err(%s);\nlet r = q?:err.value() + \"!\";\n" % a)
+    # dynamic functions over generic compounds: the field types of the result must be those of the argument's instantiation,
+    # also when the value then meets a generic function whose own type parameter has the same name as the compound's
+    for gn in ("T", "U"):
+        for a in V:
+            for b in V:
+                for flow in ("pick(%s, m::item0)%s" % (b, USE[b]), "if(false, %s, m::item0)%s" % (b, USE[b]), "[%s, m::item0][1]%s" % (b, USE[b]),
+                             "if_error(m::item0, %s)%s" % (b, USE[b]), "m::item0%s" % USE[b]):
+                    out.append("struct P<%s>(x: %s, n: int)\nfn pick<T>(a: T, b: T)->T { b }\nlet p = P(%s, 1);\nlet m = p.members();\nlet r = %s;\n" % (gn, gn, a, flow))
+                out.append("struct P<%s>(x: %s, n: int)\nlet r = P(%s, 1) == P(%s, 1);\nlet h = hash(P(%s, 1));\n" % (gn, gn, a, b, a))
     # dynamic (derived) functions applied to operands of different element types: the factory must establish that the
     # element-level function exists for exactly these types, or reject
     W = ["1", '"x"', "true", "[1]", '["x"]', "[[1]]", "some(1)", 'some("x")', '(1, "x")', '("x", 1)', "[(1, 2)]", "[some(1)]"]
